@@ -7,3 +7,5 @@ def run(ctx):
     contexts(ctx)
     pipe(ctx)
     variable_get(ctx)
+    from ..scen_misc import functional
+    functional(ctx)
